@@ -5,12 +5,16 @@
      GNanInf  experimental MH, CWMH, MALA, ULA (and every site after fixes/C02_nonfinite_guard.diff)
      GNan     legacy MALA on the unchanged tree
      GNone    legacy MH, CWMH, pCN and experimental PCN on the unchanged tree.
-   NOT proved here (the `_partial` theorems say so): reversibility/invariance as an integral statement on a
-   continuous state space -- proved as the density identity for every pair of states and as pi K = pi on every
-   finite state space. *)
+   Invariance beyond finite state spaces (round 5): proved in full on every COUNTABLE state space (Coquelicot series; pi >= 0,
+   q >= 0, rows of q summing to 1 -- nothing else), and for densities on a compact interval of R as an identity of Riemann
+   integrals against every continuous test function: in full for continuous pi, q (C02_invariance_interval_continuous, with
+   Fubini for continuous integrands proved, C02_fubini_continuous), and under four named integrability hypotheses for
+   non-continuous densities (C02_invariance_interval_partial).  NOT proved: unbounded supports (improper integrals), R^n. *)
 From CV Require Import Base.Tac Base.Cmp Base.Ext Model.C02_MH
-  Model.C02_Tune Proofs.C02_MH Proofs.C02_Balance Proofs.C02_Vec Proofs.C02_Real Proofs.C02_Witness Proofs.C02_Tune Proofs.C02_Bilinear Proofs.C02_Measure.
+  Model.C02_Tune Proofs.C02_MH Proofs.C02_Balance Proofs.C02_Vec Proofs.C02_Real Proofs.C02_Witness Proofs.C02_Tune Proofs.C02_Bilinear Proofs.C02_Measure Proofs.C02_Countable Proofs.C02_Continuous Proofs.C02_Fubini Proofs.C02_Link.
 From Coq Require Import QArith Qreals Reals.
+From Coquelicot Require Import Hierarchy Series RInt Continuity.
+Close Scope R_scope.   (* Coquelicot opens it globally; this file writes %R / %Q explicitly *)
 
 (* ---- the log-domain decision is the MH decision ------------------------------------------------------- *)
 Theorem C02_decision_is_MH : forall (u r : R), (0 < u)%R -> (u <= 1)%R ->
@@ -288,6 +292,205 @@ Theorem C02_pcn_residual_is_noise : forall (P : nat -> nat -> Q) (n : nat) (a s 
   (BM P n (res _ linF a x x') (res _ linF a x x') / (s * s) == BM P n xi xi)%Q.
 Proof. exact pcn_residual_is_noise. Qed.
 Print Assumptions C02_pcn_residual_is_noise.
+
+(* ---- invariance on every COUNTABLE state space (states enumerated by nat), over R: the MH kernel with its rejection atom
+   KR x y = q x y * alpha + [x = y] * (1 - sum_z q x z * alpha) is non-negative, every row is a convergent series with sum 1, it is
+   reversible for every pair, and  sum_x pi(x) K(x,y)  CONVERGES and equals pi(y).  Hypotheses: pi >= 0, q >= 0 (no positivity,
+   pi need not be normalised or summable), every row of q is a convergent series with sum 1. ------------------------------------ *)
+Theorem C02_invariance_countable : forall (pi : nat -> R) (q : nat -> nat -> R),
+  (forall x, 0 <= pi x)%R -> (forall x y, 0 <= q x y)%R -> (forall x, is_series (q x) 1%R) ->
+  (forall x y, 0 <= KR pi q x y)%R /\ (forall x, is_series (KR pi q x) 1%R) /\
+  (forall x y, pi x * KR pi q x y = pi y * KR pi q y x)%R /\
+  (forall y, is_series (fun x => (pi x * KR pi q x y)%R) (pi y)).
+Proof.
+  intros pi q Hp Hq Hs. split; [|split; [|split]].
+  - exact (KR_nonneg pi q Hp Hq Hs).
+  - exact (KR_stochastic pi q Hp Hq Hs).
+  - exact (KR_reversible pi q Hp Hq).
+  - exact (KR_invariant pi q Hp Hq Hs).
+Qed.
+Print Assumptions C02_invariance_countable.
+
+(* ... hence after ANY number of transitions started in pi the law is pi, and for a summable pi every SET of states keeps its mass *)
+Theorem C02_invariance_countable_steps : forall (pi : nat -> R) (q : nat -> nat -> R),
+  (forall x, 0 <= pi x)%R -> (forall x y, 0 <= q x y)%R -> (forall x, is_series (q x) 1%R) ->
+  (forall (n : nat) (y : nat), Nat.iter n (push pi q) pi y = pi y) /\
+  (ex_series pi -> forall Y : nat -> bool, is_series (fun y => (indic Y y * push pi q pi y)%R) (Series (fun y => (indic Y y * pi y)%R))).
+Proof.
+  intros pi q Hp Hq Hs. split.
+  - exact (KR_invariant_iter pi q Hp Hq Hs).
+  - intros He Y. exact (KR_invariant_sets pi q Hp Hq Hs Y He).
+Qed.
+Print Assumptions C02_invariance_countable_steps.
+
+Example C02_countable_example :
+  (forall x, 0 <= geo_pi x)%R /\ (forall x y, 0 <= geo_q x y)%R /\ (forall x, is_series (geo_q x) 1%R) /\ ex_series geo_pi.
+Proof. exact geo_hyps. Qed.
+
+(* the acceptance probability used there is the MH probability: in [0,1], equal to min(1, backward flow / forward flow) wherever the
+   forward flow is positive, and pi(x) q(x,y) alpha(x,y) = min(forward flow, backward flow) (symmetric: detailed balance) *)
+Theorem C02_alpha_flow : forall a b : R, (0 <= a)%R -> (0 <= b)%R ->
+  (0 <= acc0 a b <= 1)%R /\ (a * acc0 a b = Rmin a b)%R /\ (a * acc0 a b = b * acc0 b a)%R /\ ((0 < a)%R -> acc0 a b = Rmin 1 (b / a)).
+Proof.
+  intros a b Ha Hb. split; [exact (acc0_range a b Ha Hb)|]. split; [exact (flow_acc0 a b Ha Hb)|]. split; [exact (acc0_balance a b Ha Hb)|].
+  intro P. unfold acc0. destruct (Req_EM_T a 0) as [E|E]; [exfalso; rewrite E in P; exact (Rlt_irrefl 0 P) | reflexivity].
+Qed.
+Print Assumptions C02_alpha_flow.
+
+(* ---- invariance for DENSITIES ON A COMPACT INTERVAL [a,b] of R, Riemann integrals: with
+        (K f)(x) = f(x) + int_a^b q(x,y) alpha(x,y) (f(y) - f(x)) dy     (accepted moves + rejection atom)
+   int_a^b pi (K f) = int_a^b pi f for every test function f.  `_partial`: the four integrability hypotheses are ASSUMED, not derived
+   from regularity of pi, q, f:  (I1) every accepted-move integrand is integrable in y; (I2) pi f is integrable; (I3) the inner
+   integral of h(x,y) = min(pi(x)q(x,y), pi(y)q(y,x)) (f(y) - f(x)) is integrable in x; (I4) the two iterated integrals of h over
+   the square agree (Fubini).  For continuous pi, q, f they are proved (next theorem); this form also covers densities with jumps
+   (Uniform proposals) PROVIDED (I1)-(I4) hold for them; unbounded supports are not covered. ------------- *)
+Theorem C02_invariance_interval_partial : forall (a b : R) (pi : R -> R) (q : R -> R -> R),
+  (forall x, 0 <= pi x)%R -> (forall x y, 0 <= q x y)%R -> forall f : R -> R,
+  (forall x, ex_RInt (moveint pi q f x) a b) ->
+  ex_RInt (fun x => (pi x * f x)%R) a b ->
+  ex_RInt (fun x => RInt (hflow pi q f x) a b) a b ->
+  RInt (fun x => RInt (fun y => hflow pi q f x y) a b) a b = RInt (fun y => RInt (fun x => hflow pi q f x y) a b) a b ->
+  RInt (fun x => (pi x * Kf a b pi q f x)%R) a b = RInt (fun x => (pi x * f x)%R) a b.
+Proof. exact invariance_RInt. Qed.
+Print Assumptions C02_invariance_interval_partial.
+
+Example C02_interval_example :
+  let pi := fun _ : R => 1%R in let q := fun _ _ : R => 1%R in let f := fun x : R => x in
+  (forall x, 0 <= pi x)%R /\ (forall x y, 0 <= q x y)%R /\
+  (forall x, ex_RInt (moveint pi q f x) 0 1) /\ ex_RInt (fun x => (pi x * f x)%R) 0 1 /\
+  ex_RInt (fun x => RInt (hflow pi q f x) 0 1) 0 1 /\
+  RInt (fun x => RInt (fun y => hflow pi q f x y) 0 1) 0 1 = RInt (fun y => RInt (fun x => hflow pi q f x y) 0 1) 0 1.
+Proof. exact uniform_example. Qed.
+
+(* Fubini for a jointly continuous integrand on any rectangle (Coquelicot has none): the two iterated Riemann integrals agree *)
+Theorem C02_fubini_continuous : forall (h : R -> R -> R), (forall x y, continuity_2d_pt h x y) ->
+  forall a b c d : R,
+  RInt (fun x => RInt (fun y => h x y) c d) a b = RInt (fun y => RInt (fun x => h x y) a b) c d.
+Proof. intros h Hh a b c d. exact (fubini_continuous h Hh a c d b). Qed.
+Print Assumptions C02_fubini_continuous.
+
+(* FULL statement on a compact interval: for a continuous target density pi >= 0 (zeros allowed: compact support inside [a,b]), a
+   jointly continuous proposal density q >= 0 and every continuous test function f, all four hypotheses above are PROVED and
+   int_a^b pi (K f) = int_a^b pi f.  Where pi vanishes there is no flow in either direction (second part), so for a target supported in
+   [A,B] the statement on any [a,b] containing [A,B] is the statement on the support. *)
+Theorem C02_invariance_interval_continuous : forall (pi : R -> R) (q : R -> R -> R) (f : R -> R),
+  (forall x, 0 <= pi x)%R -> (forall x y, 0 <= q x y)%R ->
+  (forall x, continuity_pt pi x) -> (forall x y, continuity_2d_pt q x y) -> (forall x, continuity_pt f x) ->
+  (forall a b : R, RInt (fun x => (pi x * Kf a b pi q f x)%R) a b = RInt (fun x => (pi x * f x)%R) a b) /\
+  (forall x y : R, pi y = 0%R -> hflow pi q f x y = 0%R /\ hflow pi q f y x = 0%R) /\
+  (forall x y : R, (pi x * moveint pi q f x y)%R = hflow pi q f x y /\ hflow pi q f x y = (- hflow pi q f y x)%R).
+Proof.
+  intros pi q f Hp Hq Cp Cq Cf. split; [|split].
+  - intros a b. exact (invariance_RInt_continuous pi q f Hp Hq Cp Cq Cf a b).
+  - exact (hflow_outside pi q f Hp Hq).
+  - intros x y. split; [exact (hflow_move pi q Hp Hq f x y) | exact (hflow_anti pi q f x y)].
+Qed.
+Print Assumptions C02_invariance_interval_continuous.
+
+Example C02_interval_continuous_example :
+  let pi := fun x : R => (Rmin x (1 - x) + Rabs (Rmin x (1 - x)))%R in let q := fun _ _ : R => 1%R in let f := fun x : R => x in
+  (forall x, 0 <= pi x)%R /\ (forall x y, 0 <= q x y)%R /\ (forall x, continuity_pt pi x) /\ (forall x y, continuity_2d_pt q x y) /\
+  (forall x, continuity_pt f x) /\ pi 0%R = 0%R /\ pi 1%R = 0%R /\ pi (1 / 2)%R = 1%R.
+Proof. exact tent_hyps. Qed.
+
+(* ---- scale adaptation, every tuning window: more accepted flags in a window never give a smaller scale, the scale stays in (0,1];
+        two runs with pointwise ordered windows stay ordered after EVERY adaptation step; the vanishing-adaptation bound with its
+        hypotheses discharged for every window the samplers form (0 <= accepted <= n, n > 0) and the three target rates used ---------- *)
+Theorem C02_tune_window_monotone : forall (lam : R) (k : Z) (star : R) (a1 a2 n : Z),
+  (1 <= k)%Z -> (0 < n)%Z -> (a1 <= a2)%Z ->
+  (tune_scale lam k (hat_acc a1 n) star <= tune_scale lam k (hat_acc a2 n) star)%R /\
+  (0 < tune_scale lam k (hat_acc a1 n) star <= 1)%R.
+Proof. exact tune_window_mono. Qed.
+Print Assumptions C02_tune_window_monotone.
+
+Theorem C02_tune_monotone_in_rate : forall (lam : R) (k : Z) (h1 h2 star : R), (1 <= k)%Z ->
+  ((h1 <= h2)%R -> (tune_temp lam k h1 star <= tune_temp lam k h2 star)%R /\ (tune_scale lam k h1 star <= tune_scale lam k h2 star)%R) /\
+  ((h1 < h2)%R -> (tune_temp lam k h1 star < tune_temp lam k h2 star)%R).
+Proof.
+  intros lam k h1 h2 star Hk. split.
+  - intro H. split; [exact (tune_temp_mono_h lam k h1 h2 star Hk H) | exact (tune_scale_mono_h lam k h1 h2 star Hk H)].
+  - exact (tune_temp_strict_h lam k h1 h2 star Hk).
+Qed.
+Print Assumptions C02_tune_monotone_in_rate.
+
+Theorem C02_tune_runs_ordered : forall (w1 w2 : list (Z * Z)) (lam1 lam2 : R) (k : Z) (star : R),
+  Forall2 win_le w1 w2 -> (0 < lam1)%R -> (lam1 <= lam2)%R -> (1 <= k)%Z ->
+  Forall2 Rle (tune_temps lam1 k star w1) (tune_temps lam2 k star w2) /\
+  Forall2 Rle (tune_seq lam1 k star w1) (tune_seq lam2 k star w2) /\
+  Forall (fun t => (0 < t)%R) (tune_temps lam1 k star w1) /\
+  tune_seq lam1 k star w1 = map (fun t => Rmin t 1) (tune_temps lam1 k star w1).
+Proof.
+  intros w1 w2 lam1 lam2 k star HW H1 H12 Hk. split; [exact (tune_temps_mono w1 w2 lam1 lam2 k star HW H1 H12 Hk)|].
+  split; [exact (tune_seq_mono w1 w2 lam1 lam2 k star HW H1 H12 Hk)|].
+  split; [exact (tune_temps_pos w1 lam1 k star) | exact (tune_seq_clip w1 lam1 k star)].
+Qed.
+Print Assumptions C02_tune_runs_ordered.
+
+Theorem C02_tune_window_vanishing : forall (lam : R) (k a n : Z) (star : R),
+  (0 < lam)%R -> (1 <= k)%Z -> (0 <= a <= n)%Z -> (0 < n)%Z ->
+  (star = star_mh \/ star = star_pcn \/ exists d, (1 <= d)%Z /\ star = star_cw d) ->
+  (Rabs (ln (tune_temp lam k (hat_acc a n) star) - ln lam) <= zeta k)%R.
+Proof. exact tune_window_vanishing. Qed.
+Print Assumptions C02_tune_window_vanishing.
+
+Example C02_tune_monotone_example :
+  Forall2 win_le [(1, 4); (0, 4)]%Z [(3, 4); (2, 4)]%Z /\ (0 < 1 / 4)%R /\ (1 / 4 <= 1 / 2)%R /\ (1 <= 1)%Z /\ (0 <= 3 <= 4)%Z /\ (0 < 4)%Z.
+Proof. exact tune_mono_example. Qed.
+
+(* ---- the windows tune() reads (Model/C02_Tune.v win_last = _acc[-T:] for MH/PCN, win_slice = _acc[i*T:(i+1)*T] for CWMH): for a 0/1
+        history and a non-empty window EVERY tune() call gives a positive parameter, a scale in (0,1] and a log-step <= 1/sqrt(i+1),
+        with no hypothesis on the observed rate; under warmup()'s call pattern both conventions read the same T flags; pointwise
+        larger flags give a larger-or-equal parameter and scale ------------------------------------------------------------------- *)
+Theorem C02_tune_call_sound : forall (cw : bool) (T i : nat) (acc : list Z) (lam star : R),
+  (0 < lam)%R -> flags acc -> (if cw then win_slice T i acc else win_last T acc) <> nil ->
+  (star = star_mh \/ star = star_pcn \/ exists d, (1 <= d)%Z /\ star = star_cw d) ->
+  (0 < tune_call cw T i acc lam star)%R /\ (0 < Rmin (tune_call cw T i acc lam star) 1 <= 1)%R /\
+  (Rabs (ln (tune_call cw T i acc lam star) - ln lam) <= zeta (Z.of_nat i + 1))%R.
+Proof. exact tune_call_sound. Qed.
+Print Assumptions C02_tune_call_sound.
+
+Theorem C02_tune_windows_coincide : forall (T i : nat) (acc : list Z), length acc = ((i + 1) * T)%nat ->
+  win_last T acc = win_slice T i acc /\ length (win_last T acc) = T.
+Proof. exact windows_coincide. Qed.
+Print Assumptions C02_tune_windows_coincide.
+
+Theorem C02_tune_flags_monotone : forall (lam : R) (i : nat) (star : R) (w1 w2 : list Z), Forall2 Z.le w1 w2 -> w1 <> nil ->
+  (tune_temp lam (Z.of_nat i + 1) (win_rate w1) star <= tune_temp lam (Z.of_nat i + 1) (win_rate w2) star)%R /\
+  (tune_scale lam (Z.of_nat i + 1) (win_rate w1) star <= tune_scale lam (Z.of_nat i + 1) (win_rate w2) star)%R.
+Proof. exact tune_flags_mono. Qed.
+Print Assumptions C02_tune_flags_monotone.
+
+Example C02_tune_window_example :
+  flags [1; 0; 1; 1; 0; 1]%Z /\ length [1; 0; 1; 1; 0; 1]%Z = ((1 + 1) * 3)%nat /\ win_last 3 [1; 0; 1; 1; 0; 1]%Z = [1; 0; 1]%Z /\
+  win_slice 3 1 [1; 0; 1; 1; 0; 1]%Z = [1; 0; 1]%Z /\ Forall2 Z.le [0; 0; 1]%Z [1; 0; 1]%Z.
+Proof. exact window_example. Qed.
+
+(* ---- the link between the two layers: the accept rule of the transition MODEL (the rule the correspondence evaluates) accepts, for
+        a uniform u in (0,1] with log u = l, exactly when u <= acc0 (pi(x) c) (pi(x') c) -- the acceptance probability of the kernel-level
+        invariance theorems -- for a symmetric proposal density value c > 0, pi = exp(logd) and pi = 0 where logd = -inf; all support
+        cases except both points outside the support (there the guarded code rejects; the flow is zero either way) ------------------ *)
+Theorem C02_model_accept_is_alpha : forall (l : Q) (u c : R) (sx sy : ext),
+  (0 < u)%R -> (u <= 1)%R -> Q2R l = ln u -> (0 < c)%R ->
+  (is_fin sx = true \/ sx = NInf) -> (is_fin sy = true \/ sy = NInf) -> ~ (sx = NInf /\ sy = NInf) ->
+  (accept GNanInf (Fin l) (ext_sub sy sx) sy = true <-> (u <= acc0 (dens sx * c) (dens sy * c))%R).
+Proof. exact accept_is_acc0. Qed.
+Print Assumptions C02_model_accept_is_alpha.
+
+Theorem C02_model_step_is_alpha : forall (logd : vec -> ext) (s : Q) (st : state) (xi : vec) (l : Q) (u c : R),
+  (0 < u)%R -> (u <= 1)%R -> Q2R l = ln u -> (0 < c)%R -> sld st = logd (sx st) ->
+  (is_fin (logd (sx st)) = true \/ logd (sx st) = NInf) ->
+  (is_fin (logd (mh_prop s (sx st) xi)) = true \/ logd (mh_prop s (sx st) xi) = NInf) ->
+  ~ (logd (sx st) = NInf /\ logd (mh_prop s (sx st) xi) = NInf) ->
+  (snd (mh_step logd GNanInf s st xi (Fin l)) = true <->
+   (u <= acc0 (dens (logd (sx st)) * c) (dens (logd (mh_prop s (sx st) xi)) * c))%R).
+Proof. exact mh_step_is_acc0. Qed.
+Print Assumptions C02_model_step_is_alpha.
+
+(* the rational alpha0 evaluated by the lattice cells of the correspondence IS the real acc0 of the countable / interval theorems *)
+Theorem C02_alpha0_is_acc0 : forall (A : Type) (pi : A -> Q) (q : A -> A -> Q) (x y : A),
+  Q2R (alpha0 A pi q x y) = acc0 (Q2R (pi x * q x y)) (Q2R (pi y * q y x)).
+Proof. exact alpha0_is_acc0. Qed.
+Print Assumptions C02_alpha0_is_acc0.
 
 (* ---- otherwise the state and its cached density/gradient are unchanged ---------------------------------------- *)
 Theorem C02_reject_unchanged : forall (logd : vec -> ext) (grad : vec -> vec) (k : kernel) (sc : vec) (st : state)
